@@ -227,6 +227,21 @@ def scan_and_attribute(spec, acc, case, mp_rel=""):
         acc.evaluated(n)
         for s in se.model.statements if se.model else []:
             acc.hist("random_form", s.form)
+        if case.get("limits"):
+            # the same project scanned again with several level limits in one process, then without one: every statement
+            # still accounts for its (truncated) edge - only findings the unlimited scan does not show are attributed
+            for k in case["limits"]:
+                c2 = dict(case, level_limit=k)
+                HUB.case = c2
+                get_evaluable_architecture(root, mp, level_limit=k)
+                attribute_scan_findings(HUB.scan_events[-1], {"edge-missing": "C02", "edge-extra": "C02"}, c2, baseline=se)
+                acc.evaluated()
+                acc.count("rescans_of_one_project_with_several_level_limits")
+            HUB.case = case
+            get_evaluable_architecture(root, mp)
+            again = HUB.scan_events[-1]
+            if again.state != se.state:
+                HUB.violation("C02", "edge-set-changes-after-level-limited-scans", "the unlimited scan of a project differs after level-limited scans of the same project", {"imports_diff": sorted(again.imps ^ se.imps)[:12], "nodes_diff": sorted(again.nodes ^ se.nodes)[:12]})
         return se
     finally:
         trees.remove_tree(root)
@@ -308,6 +323,8 @@ def random_projects(spec, acc):
         if mp_rel and rnd.random() < 0.7:
             acc.count("statements_written_relative_to_module_path_parent", trees.relativise(tspec, mp_rel, rnd))
         case = {"kind": "random", "spec": tspec, "mp": mp_rel}
+        if i % 4 == 2:
+            case["limits"] = rnd.sample([1, 2, 3, 4], rnd.randint(2, 3))
         se = scan_and_attribute(tspec, acc, case, mp_rel)
         if se.model and se.model.statements:
             acc.nontrivial({"s": tspec, "mp": mp_rel})
@@ -410,6 +427,8 @@ def floors(acc, tier):
         why.append("too few imports written relative to module_path's parent")
     if acc.counters["rescans_after_in_place_edit"] < 20:
         why.append("too few re-scans after an in-place edit with restored timestamps")
+    if acc.counters["rescans_of_one_project_with_several_level_limits"] < 50:
+        why.append("too few projects re-scanned with several level limits in one process")
     if acc.counters["scan_results_first_used_after_a_change"] < 20:
         why.append("too few scan results first used after the tree / the working directory changed")
     if acc.counters["scans_judged"] < 20:
